@@ -622,6 +622,15 @@ static void typed_look_result(int k, int ok, int iv, long long lv, double fv, in
   fputc('\n', out);
 }
 
+/* after the configuration has been destroyed nothing the library allocated may be left: ask LeakSanitizer now, so
+   that a leak is attributed to this history and not to the process that runs several of them */
+#if defined(__SANITIZE_ADDRESS__) && !defined(DRV_FAULT)
+int __lsan_do_recoverable_leak_check(void);
+static void leak_probe(void) { fflush(out); if(__lsan_do_recoverable_leak_check()) fputs("L LEAK\n", out); }
+#else
+static void leak_probe(void) { }
+#endif
+
 static int run_line(char *line)
 {
   char *tok[MAXTOK];
@@ -666,7 +675,7 @@ static int run_line(char *line)
   }
   if(n == 1 && IS("clear")) { config_clear(&cfg); r_unit(); return 0; }
 #ifdef DRV_CXX
-  if(n == 1 && IS("destroy")) { xx_delete_config(); live = 0; r_unit(); return 0; }
+  if(n == 1 && IS("destroy")) { xx_delete_config(); live = 0; leak_probe(); r_unit(); return 0; }
   if(c[0] == 'x')
   {
     rec_io = !strncmp(c, "xread", 5);     /* Config::readString / readFile: files opened and closed are logged */
@@ -675,7 +684,7 @@ static int run_line(char *line)
     if(handled) return 0;
   }
 #else
-  if(n == 1 && IS("destroy")) { config_destroy(&cfg); live = 0; r_unit(); return 0; }
+  if(n == 1 && IS("destroy")) { config_destroy(&cfg); live = 0; leak_probe(); r_unit(); return 0; }
 #endif
   if(n == 2 && IS("options")) { config_set_options(&cfg, (int)parse_num(tok[1])); r_unit(); return 0; }
   if(n == 3 && IS("option"))
@@ -1038,6 +1047,22 @@ static int run_line(char *line)
     {
       if(!setlocale(LC_ALL, nm ? nm : "C")) { fputs("R locale-unavailable\n", out); free(nm); return 0; }
       free(glob_name); glob_name = strdup(nm ? nm : "C");
+    }
+    else if(!strcmp(tok[1], "swap") && nm)
+    {
+      /* replace the thread's locale object by a fresh one for <name>, released and allocated back to back (the
+         locale data is loaded beforehand, so that nothing else is allocated in between): as a server does per request */
+      locale_t warm = newlocale(LC_ALL_MASK, nm, (locale_t)0), old = thread_loc;
+      if(!warm) { fputs("R locale-unavailable\n", out); free(nm); return 0; }
+      freelocale(warm);
+      uselocale(LC_GLOBAL_LOCALE);
+      if(old) freelocale(old);
+      thread_loc = newlocale(LC_ALL_MASK, nm, (locale_t)0);
+      uselocale(thread_loc);
+      free(thread_name); thread_name = strdup(nm);
+      fprintf(out, "R swap %d\n", old && thread_loc == old);
+      free(nm);
+      return 0;
     }
     else
     {
